@@ -1,6 +1,40 @@
 import WhVerif.Util.Proto
+import WhVerif.Model.C04Json
 namespace WhVerif.Driver.C04
-open Lean WhVerif.Proto
+open Lean WhVerif.Proto WhVerif.C04 WhVerif.C04.Json
+
+def hline? (j : Json) : Option HLine := do
+  let id := match j.getObjVal? "id" with
+    | .ok (Json.str s) => some s
+    | _ => none
+  some ⟨← getStr? j "key", id, (getStr? j "number").getD "", (getStr? j "type").getD "", (getStr? j "text").getD ""⟩
+
+def ofHLine (l : HLine) : Json :=
+  Json.mkObj [("key", Json.str l.key), ("id", match l.id with | some s => Json.str s | none => Json.null),
+    ("number", Json.str l.number), ("type", Json.str l.typ), ("text", Json.str l.text)]
+
+def reachFlags (cfg : Cfg) : Option Nat → List Record → List Bool
+  | _, [] => []
+  | prev, r :: rs => reaches cfg prev r :: reachFlags cfg (writeRecord cfg prev r).prev rs
+
 /-- ops of property C04 are named `c04.<name>`; return `none` for ops that are not ours -/
-def handle (_op : String) (_j : Json) : Option Json := none
+def handle (op : String) (j : Json) : Option Json :=
+  if op == "c04.write" then
+    -- one chromosome block: {cfg, records} -> {records, changes, err, reached}
+    match (getObj? j "cfg").bind cfg?, (getList? j "records").bind (·.mapM record?) with
+    | some cfg, some rs =>
+      let os := writeChrom cfg none rs
+      some (Json.mkObj [("records", ofList ofRecord (outRecords os)), ("changes", ofList ofChange (outChanges os)),
+                        ("err", Json.bool (os.any (·.err))),
+                        ("reached", ofList Json.bool (reachFlags cfg none rs))])
+    | _, _ => some badInput
+  else if op == "c04.header" then
+    match (getStr? j "tag").bind tag?, getBool? j "commandLine", (getList? j "header").bind (·.mapM hline?),
+          (getObj? j "contigs").bind strList?, (getObj? j "formats").bind strList?, (getObj? j "infos").bind strList? with
+    | some tag, some cl, some h, some cs, some fs, some is =>
+      match outputHeader tag cl h cs fs is with
+      | some h' => some (Json.mkObj [("header", ofList ofHLine h')])
+      | none => some (Json.mkObj [("error", Json.str "VcfError")])
+    | _, _, _, _, _, _ => some badInput
+  else none
 end WhVerif.Driver.C04
